@@ -200,6 +200,18 @@ claim("C18", "exploration",
       "bootstrap threshold lets the decision traces part.  Sampled.",
       TB, "DESIGN.md 4 (C18)")
 
+claim("C12", "exploration",
+      "runtime monitoring: twin differential - every ensemble member against an identically constructed stand-alone twin under "
+      "a per-member seed schedule (structural deep comparison of the complete state), independent election oracle, recording "
+      "column selectors and a recording order-sensitive election probe",
+      "Hundreds (thousands thorough) of streaming and batch ensembles (1-5 members of mixed kinds, five election kinds incl. a "
+      "user-supplied order-sensitive probe, recording selectors over subsets / re-ordered columns of ndarray and DataFrame "
+      "inputs, explicit reset / set_reference calls): after every ensemble call each member's full state equals its twin's, "
+      "drift_states and retraining_recs report the members' values, the verdict equals an independent implementation of the "
+      "election on the twins in insertion order, each selector was applied exactly once, and the ensemble's own counters count "
+      "updates since the last explicit reset.  Sampled.",
+      TB + " MD3 is not placed in ensembles.", "DESIGN.md 4 (C12)")
+
 NOT_YET = "check not built yet in this revision of /verif (planned: see DESIGN.md section 4); nothing is claimed for it"
 
 
